@@ -1,4 +1,5 @@
 import Treepath.Model.Machine
+import Treepath.Generated.Budget
 /-
 The has-family predicates (`has_function.py`, `traverser_functions.py`): closures that run a
 *nested* traverser from the candidate match and stop at the first success.
@@ -9,7 +10,7 @@ namespace Treepath
 structure Ctx (α : Type) where
   view : α → View α
   toJ : α → J
-  limit : Nat := 1000000      -- action budget of one `__next__`
+  limit : Nat := Generated.loopBudget      -- action budget of one `__next__` (generated from the source)
   fuel : Nat := 100000000     -- bound on the number of `next()` calls of one `for` loop
 
 variable {α : Type}
